@@ -24,7 +24,7 @@ var c14Pool = []string{
 	// accumulator / moffs forms and register pairs sharing an operand with
 	// other pool members (table lookups that could remember their neighbour)
 	"MOV AL,[0x1234]", "MOV [0x1234],AX", "MOV EAX,[0x1234]", "MOV AX,[SI]", "MOV [BX],AX", "MOV EAX,[EBX]",
-	"MOV CL,AL", "CMP CL,5", "ADD BX,AX", "MOV ECX,EAX", "ADD AX,1000", "PUSH 1000",
+	"MOV CL,AL", "CMP CL,5", "ADD BX,AX", "MOV ECX,EAX", "ADD AX,1000", "PUSH 1000", "IMUL CX,1000", "IMUL ECX,4608", "IMUL ECX,4",
 }
 
 // c14Related: statements more likely to interfere through shared lookup
